@@ -2,7 +2,7 @@
 from rules import tbl_parse_float as T
 from rules import pipeline as P
 from rules import extra as X
-from rules.core import guarded
+from rules.core import guarded, guarded_soft
 
 INFO = {
     "explanation": "Static analysis of necessary structural conditions for correct rounding of decimal input: every embedded constant the rounding decision depends on is compared with its mathematical definition, and the shape of the three-tier pipeline is checked on the MIR of every feature configuration.",
@@ -28,14 +28,14 @@ def run(col, configs, tier):
             guarded(col, P.rule_error_units, facts)
         guarded(col, P.rule_same_base, facts)
         guarded(col, P.rule_zero_shortcircuit, facts)
-        guarded(col, X.rule_sticky_scans, facts)
-        guarded(col, X.rule_hi_truncation, facts)
-        guarded(col, X.rule_binary_factor, facts)
-        guarded(col, X.rule_reparse_skips_zeros, facts)
+        guarded_soft(col, X.rule_sticky_scans, facts)
+        guarded_soft(col, X.rule_hi_truncation, facts)
+        guarded_soft(col, X.rule_binary_factor, facts)
+        guarded_soft(col, X.rule_reparse_skips_zeros, facts)
         if facts.config.startswith("compact"):
-            guarded(col, X.rule_exponent_narrowing, facts, ("bellerophon",))      # Bellerophon serves decimal under compact
-        guarded(col, X.rule_denormal_shift, facts, ("lemire",))
-        guarded(col, X.rule_rte_window, facts)
-        guarded(col, X.rule_lemire_precision_and_window, facts)
-        guarded(col, X.rule_bellerophon_underflow_order, facts)
-        guarded(col, X.rule_error_accounting, facts)
+            guarded_soft(col, X.rule_exponent_narrowing, facts, ("bellerophon",))      # Bellerophon serves decimal under compact
+        guarded_soft(col, X.rule_denormal_shift, facts, ("lemire",))
+        guarded_soft(col, X.rule_rte_window, facts)
+        guarded_soft(col, X.rule_lemire_precision_and_window, facts)
+        guarded_soft(col, X.rule_bellerophon_underflow_order, facts)
+        guarded_soft(col, X.rule_error_accounting, facts)
